@@ -931,6 +931,14 @@ def rule_r22(prog, res):
     res.floor('R22', 'import registrations in Interface', n, 6)
 
 
+def rule_r23(prog, res):
+    from . import c05
+    from ..report import Result
+    res.share('R23', 'soft validation refuses an array only outside the '
+              'published minOccurs/maxOccurs: inclusive bounds in every '
+              'reader (C05-R25)', 'C05', c05.rule_r25, prog, Result)
+
+
 def run(prog, res, tier):
     res.run_rule(rule_r1, prog, res)
     res.run_rule(rule_r2, prog, res)
@@ -954,6 +962,7 @@ def run(prog, res, tier):
     res.run_rule(rule_r20, prog, res)
     res.run_rule(rule_r21, prog, res)
     res.run_rule(rule_r22, prog, res)
+    res.run_rule(rule_r23, prog, res)
 
 
 _M = 'spyne/interface/xml_schema/model.py'
